@@ -177,6 +177,9 @@ def _mk(rng, algo, vect, T, E, shared, other, flags=None, **kw):
         "flags": fl,
         "mode": kw.get("mode") or ("ids" if rng.random() < 0.35 else "rand"),
         "seed": int(rng.integers(1 << 30)),
+        # agent ids whose order in the environment / the dictionaries is not the lexicographic one (agent_1 before
+        # agent_0; agent_9, agent_10, agent_11 as in environments with more than ten agents)
+        "names": ("asc", "asc", "desc", "wide")[int(rng.integers(0, 4))],
     }
     if c["hp_change"] == "mutation":
         # grow / shrink of 0 stays 0: start from values a mutation really changes
@@ -287,7 +290,13 @@ class Rollout:
         self.case = case
         T, E = case["T"], case["E"]
         self.T, self.E = T, E
-        self.names = [f"agent_{i}" for i in range(case["shared"])] + [f"other_{i}" for i in range(case["other"])]
+        style = case.get("names", "asc")
+        idx = list(range(case["shared"]))
+        if style == "desc":
+            idx = idx[::-1]
+        elif style == "wide":
+            idx = [9 + i for i in idx]
+        self.names = [f"agent_{i}" for i in idx] + [f"other_{i}" for i in range(case["other"])]
         self.A = len(self.names)
         self.n = self.A * E * T
         self.ncol = self.A * E
